@@ -166,6 +166,9 @@ class Prov:
                 if n == str(name):
                     return ov
             return self._field(t[1], name, idx)
+        if t[0] == 'bound' and t[1][0] == 'agg':
+            sub = self._field(t[1], name, idx)
+            return self.subst(sub, t[2], list(t[3]))
         return ('field', t, name)
 
     def _phi(self, ts):
@@ -194,26 +197,53 @@ class Prov:
                     ts.append(self._project(self._def_term(f, d), proj[len(d[3]):]))
                 return self._phi(ts)
         base = self._local_whole(f, l)
-        # field overwrites of a local that also has a whole definition: `ctx.trace_context = x`
-        partial = [d for d in dl if d[0] == 'stmt' and len(d[3]) == 1 and d[3][0][0] == 'f']
-        if partial and at is not None:
-            from . import cfg as _cfg
-            sure, maybe = {}, {}
+        # field overwrites of (a sub-place of) a local that also has a whole definition:
+        # `ctx.trace_context = x`, `(_1.ctx).trace_context = x`
+        partial = [d for d in dl if d[0] == 'stmt' and d[3] and all(e[0] in ('f', 'd') for e in d[3])]
+        if not partial or at is None:
+            return self._project(base, proj)
+        from . import cfg as _cfg
+
+        def fields(pr):
+            return [e[2] for e in pr if e[0] == 'f']
+
+        def wrap(term, prefix):
+            sure, maybe, deeper = {}, {}, set()
             for d in partial:
-                name = d[3][0][2]
-                if d[1] == at or _cfg.dominates(f, d[1], at):
-                    sure.setdefault(name, []).append(self._def_term(f, d))
-                elif at in _cfg.reachable(f, d[1]):
-                    maybe.setdefault(name, []).append(self._def_term(f, d))
-            if sure or maybe:
-                ovs = []
-                for name in sorted(set(sure) | set(maybe)):
+                df = fields(d[3])
+                if len(df) > len(prefix) and df[:len(prefix)] == prefix:
+                    name = df[len(prefix)]
+                    if len(df) == len(prefix) + 1:
+                        if d[1] == at or _cfg.dominates(f, d[1], at):
+                            sure.setdefault(name, []).append(self._def_term(f, d))
+                        elif at in _cfg.reachable(f, d[1]):
+                            maybe.setdefault(name, []).append(self._def_term(f, d))
+                    else:
+                        deeper.add(name)
+            if not (sure or maybe or deeper):
+                return term
+            ovs = []
+            for name in sorted(set(sure) | set(maybe) | deeper):
+                if name in sure or name in maybe:
                     alts = list(sure.get(name, [])) + list(maybe.get(name, []))
                     if name not in sure:
-                        alts.append(self._field(base, name))
+                        alts.append(self._field(term, name))
                     ovs.append((name, self._phi(alts)))
-                base = ('with', base, tuple(ovs))
-        return self._project(base, proj)
+                else:
+                    sub = wrap(self._field(term, name), prefix + [name])
+                    if sub[0] == 'with':
+                        ovs.append((name, sub))
+            if not ovs:
+                return term
+            return ('with', term, tuple(ovs))
+
+        cur, prefix = wrap(base, []), []
+        for e in proj:
+            cur = self._project(cur, [e])
+            if e[0] == 'f':
+                prefix = prefix + [e[2]]
+                cur = wrap(cur, prefix)
+        return cur
 
     def _local_whole(self, f, l):
         key = (f.id, l)
@@ -366,10 +396,12 @@ class Prov:
             return ('un', t[1], self.subst(t[2], callee_id, args))
         if k == 'cast':
             return ('cast', self.subst(t[1], callee_id, args), t[2])
-        if k == 'call':
-            # a call inside the callee whose own args mention the callee's params: keep the site,
-            # remember the binding so that call_args_in() can substitute on demand
+        if k in ('call', 'agg'):
+            # a call / aggregate inside the callee whose operands mention the callee's params: keep
+            # the site, remember the binding so that args_of() / field selection can substitute on demand
             return ('bound', t, callee_id, tuple(args))
+        if k == 'with':
+            return ('with', self.subst(t[1], callee_id, args), tuple((n, self.subst(v, callee_id, args)) for n, v in t[2]))
         return t
 
     def args_of(self, t):
@@ -378,6 +410,11 @@ class Prov:
             inner = t[1]
             return [self.subst(a, t[2], list(t[3])) for a in self.args_of(inner)]
         return self.call_args(t)
+
+    def is_call(self, t, *names):
+        """is t (possibly under inlining bindings) the result of a call to one of the named callees?"""
+        t = self.unbound(t)
+        return t[0] == 'call' and callee_is(self.call_term(t), *names)
 
     def unbound(self, t):
         while t[0] == 'bound':
@@ -484,6 +521,22 @@ class Prov:
                 args = self.args_of(t)
                 if args:
                     self._root(args[0], (('t', tag),) + path, depth - 1, out)
+                    if tag == 'unwrap' and len(args) > 1 and (name.endswith('unwrap_or_else') or name.endswith('unwrap_or')):
+                        # the fallback value is an alternative source
+                        if name.endswith('unwrap_or'):
+                            self._root(args[1], (('t', 'else'),) + path, depth - 1, out)
+                        else:
+                            done = False
+                            for cr, cp in self.root(args[1], depth=8) if False else self._roots_nested(args[1]):
+                                if cr[0] == 'agg' and self._agg_rv(cr)['adt'] == 'closure':
+                                    body = self.F.fns.get(self._agg_rv(cr)['adt_id'])
+                                    if body is not None:
+                                        self._root(self._local_whole(body, 0), (('t', 'else'),) + path, depth - 1, out)
+                                        done = True
+                            if not done:
+                                out.append((('unknown', 'fallback of ' + name), path))
+                    elif tag == 'unwrap' and name.endswith('unwrap_or_default'):
+                        out.append((('const', '?', 'Default::default()', None), path))
                     return
             if t[0] == 'call':
                 e = self.expand(t, 1)
@@ -499,36 +552,40 @@ class Prov:
                     sub = self.subst(ret, callee.id, self.args_of(t))
                     self._root(sub, path, depth - 1, out)
                     return
+        LOOK = ('?ok', 'try', 'residual', 'map_err', 'conv', 'pin', 'deref', 'asref', 'clone', 'else', 'unwrap', 'box', 'project')
         if k == 'with':
             if path and path[0][0] == 'f':
                 self._root(self._field(t, path[0][1]), path[1:], depth - 1, out)
                 return
             out.append((t, path))
             return
-        if k == 'agg' and path:
-            rv = self._agg_rv(t)
+        if (k == 'agg' or (k == 'bound' and t[1][0] == 'agg')) and path:
+            inner = t if k == 'agg' else t[1]
+            bind = (lambda x: x) if k == 'agg' else (lambda x: self.subst(x, t[2], list(t[3])))
+            rv = self._agg_rv(inner)
             step = path[0]
+            fn_ = self.F.fns[inner[1]]
             if step[0] == 'v':
                 if rv['variant'] is not None and rv['variant'] != step[1]:
                     return  # infeasible: this definition builds another variant
                 self._root(t, path[1:], depth - 1, out) if len(path) > 1 else out.append((t, ()))
                 return
             if step[0] == 'f':
-                sub = self._field(t, step[1])
+                sub = self._field(inner, step[1])
                 if sub[0] != 'unknown':
-                    self._root(sub, path[1:], depth - 1, out)
+                    self._root(bind(sub), path[1:], depth - 1, out)
                     return
             if step == ('t', '?err'):
                 v = rv['variant']
                 if v in ('Pending', 'Ok', 'None', 'Continue'):
                     return  # infeasible: no error inside
                 if v in ('Ready', 'Some') and rv['ops']:
-                    self._root(self.operand(self.F.fns[t[1]], rv['ops'][0]), path, depth - 1, out)
+                    self._root(bind(self.operand(fn_, rv['ops'][0], at=inner[2])), path, depth - 1, out)
                     return
                 if v == 'Err' and rv['ops']:
-                    self._root(self.operand(self.F.fns[t[1]], rv['ops'][0]), (('t', 'errval'),) + path[1:], depth - 1, out)
+                    self._root(bind(self.operand(fn_, rv['ops'][0], at=inner[2])), (('t', 'errval'),) + path[1:], depth - 1, out)
                     return
-            if step[0] == 't' and step[1] in ('?ok', 'try', 'residual', 'map_err', 'conv', 'pin', 'deref', 'asref', 'clone'):
+            if step[0] == 't' and step[1] in LOOK:
                 # structure-preserving wrappers over an aggregate: look through
                 self._root(t, path[1:], depth - 1, out) if len(path) > 1 else out.append((t, ()))
                 return
@@ -602,6 +659,12 @@ class Prov:
                     if self.F.callee_fn(ct) is f and n - 1 < len(ct['args']):
                         out.append((self.operand(g, ct['args'][n - 1]), ()))
         self.memo[key] = out
+        return out
+
+    def _roots_nested(self, t):
+        """root() usable from inside _root (keeps the outer accumulation state intact)"""
+        out = []
+        self._root(t, (), 16, out)
         return out
 
     def _carrier(self, t):
